@@ -93,6 +93,11 @@ func (a *cfAPI) failed(w http.ResponseWriter, key string) bool {
 		a.reply(w, 404, map[string]any{"success": false, "errors": []map[string]any{{"code": 7003, "message": "not found"}}, "result": nil})
 	case "http500":
 		a.reply(w, 500, map[string]any{"success": false, "errors": []map[string]any{{"code": 1, "message": "internal"}}})
+	case "notsuccess_bare":
+		// HTTP 200, success false, and no error details at all
+		a.reply(w, 200, map[string]any{"success": false, "errors": []any{}, "messages": []any{}, "result": nil})
+	case "notsuccess_noerrors_field":
+		a.reply(w, 200, map[string]any{"success": false, "result": nil})
 	default:
 		a.reply(w, 200, map[string]any{"success": false, "errors": []map[string]any{{"code": 1004, "message": "validation failed"}}, "result": nil})
 	}
@@ -294,7 +299,7 @@ var (
 
 func TestC20(t *testing.T) {
 	rec := ev.Get("C20")
-	rec.Rule("state machine over a fake Cloudflare v4 API (zones lookup, paged dns_records with result_info as the real API reports it - count = items on this page -, PATCH; failures HTTP 403/404, success:false, and 500 in the thorough tier): 1..3 zones with 0..60 HTTPS records whose value is a generated SvcParams string (alpn, no-default-alpn, port, hints, unknown keys, with/without one ech - random or already equal to one of the two lists the case publishes -, quoted/unquoted, any position) plus non-HTTPS records; actions publish(targets drawn from existing / missing / duplicate / unknown-zone names, config list fresh or repeated), edit the zone, switch a failure on/off. Model = copy of the store. Oracle after every publish: one result per target in order with the predicted status class; for every record: requested+existing+no failure -> tokens(value) == tokens(old value without ech) + exactly one ech == base64(list), priority/target kept; otherwise byte-for-byte unchanged; PATCH requests == distinct records whose value was not current; no request touches another record. distinct = (zone shape, target-list shape, failure set); non-trivial = at least one existing target")
+	rec.Rule("state machine over a fake Cloudflare v4 API (zones lookup, paged dns_records with result_info as the real API reports it - count = items on this page -, PATCH; failures HTTP 403/404, success:false with and without error details, and 500 in the thorough tier): 1..3 zones with 0..60 HTTPS records whose value is a generated SvcParams string (alpn, no-default-alpn, port, hints, unknown keys, with/without one ech - random or already equal to one of the two lists the case publishes -, quoted/unquoted, any position) plus non-HTTPS records; actions publish(targets drawn from existing / missing / duplicate / unknown-zone names, config list fresh or repeated), edit the zone, switch a failure on/off. Model = copy of the store. Oracle after every publish: one result per target in order with the predicted status class; for every record: requested+existing+no failure -> tokens(value) == tokens(old value without ech) + exactly one ech == base64(list), priority/target kept; otherwise byte-for-byte unchanged; PATCH requests == distinct records whose value was not current; no request touches another record. distinct = (zone shape, target-list shape, failure set); non-trivial = at least one existing target")
 	rec.Mandatory("failure_then_recovery_scripted", "record_on_page_ge2", "duplicate_target", "existing_ech_replaced", "value_already_current", "failure_one_zone_only", "unknown_zone", "missing_record", "patch_failure", "current_in_other_form")
 	thorough := false
 	rapid.Check(t, func(t *rapid.T) {
@@ -348,7 +353,7 @@ func TestC20(t *testing.T) {
 		if rapid.IntRange(0, 2).Draw(t, "scripted") == 0 {
 			forceZone = rapid.IntRange(0, len(api.zones)-1).Draw(t, "script_zone")
 			key := []string{"zones:", "list:"}[rapid.IntRange(0, 1).Draw(t, "script_fail")] + api.zones[forceZone].Name
-			api.fail[key] = []string{"http403", "http404", "notsuccess"}[rapid.IntRange(0, 2).Draw(t, "script_kind")]
+			api.fail[key] = []string{"http403", "http404", "notsuccess", "notsuccess_bare", "notsuccess_noerrors_field"}[rapid.IntRange(0, 4).Draw(t, "script_kind")]
 			ops = append(ops, "fail_on:"+key+"="+api.fail[key])
 			script = []int{0, 6, 0} // publish, clear failures, publish
 			nops += 3
@@ -610,7 +615,7 @@ func TestC20(t *testing.T) {
 					delete(api.fail, key)
 					ops = append(ops, "fail_off:"+key)
 				} else {
-					kinds := []string{"http403", "http404", "notsuccess"}
+					kinds := []string{"http403", "http404", "notsuccess", "notsuccess_bare", "notsuccess_noerrors_field"}
 					if thorough {
 						kinds = append(kinds, "http500")
 					}
